@@ -1,0 +1,53 @@
+//! Hooks for the termination / certificate / report checks (C01-C03).
+//! Read-only: a thread-local record of the homogenisation scalars seen by
+//! `DefaultVariables::unscale` just before it normalises the returned vectors, a counter of
+//! roll-backs (`reset_to_prev_iterate`), and accessors for crate-private residual fields.
+use crate::solver::implementations::default::{DefaultInfo, DefaultResiduals};
+use std::cell::Cell;
+
+thread_local! {
+    static PRE_UNSCALE: Cell<(f64, f64, bool, u32)> = const { Cell::new((f64::NAN, f64::NAN, false, 0)) };
+    static ROLLBACKS: Cell<u32> = const { Cell::new(0) };
+}
+
+/// called on entry of `unscale`: (τ, κ, is_infeasible) before normalisation
+pub fn record_pre_unscale(tau: f64, kappa: f64, is_infeasible: bool) {
+    PRE_UNSCALE.with(|c| {
+        let n = c.get().3;
+        c.set((tau, kappa, is_infeasible, n + 1))
+    });
+}
+/// called on entry of `reset_to_prev_iterate`
+pub fn note_rollback() {
+    ROLLBACKS.with(|c| c.set(c.get() + 1));
+}
+/// clears the thread-local records (call before a solve)
+pub fn reset() {
+    PRE_UNSCALE.with(|c| c.set((f64::NAN, f64::NAN, false, 0)));
+    ROLLBACKS.with(|c| c.set(0));
+}
+/// (τ, κ, is_infeasible, number of unscale calls) of the last solve on this thread
+pub fn pre_unscale() -> (f64, f64, bool, u32) {
+    PRE_UNSCALE.with(|c| c.get())
+}
+/// number of roll-backs since `reset`
+pub fn rollbacks() -> u32 {
+    ROLLBACKS.with(|c| c.get())
+}
+/// the four scaled inner products stored by the last `residuals.update`:
+/// (dot_qx, dot_bz, dot_sz, dot_xPx)
+pub fn residual_dots(r: &DefaultResiduals<f64>) -> (f64, f64, f64, f64) {
+    (r.dot_qx, r.dot_bz, r.dot_sz, r.dot_xPx)
+}
+/// previous-iterate figures kept by the info record:
+/// (cost_primal, cost_dual, res_primal, res_dual, gap_abs, gap_rel)
+pub fn info_prev(i: &DefaultInfo<f64>) -> (f64, f64, f64, f64, f64, f64) {
+    (
+        i.prev_cost_primal,
+        i.prev_cost_dual,
+        i.prev_res_primal,
+        i.prev_res_dual,
+        i.prev_gap_abs,
+        i.prev_gap_rel,
+    )
+}
